@@ -1,14 +1,20 @@
-//! Verification model of `dashmap 5.4` — only the API subset CacheD's non-test code uses.
+//! Verification model of `dashmap 5.4` — only the API subset CacheD's non-test code uses (plus a few
+//! neighbouring methods a refactor might reach for: try_get, try_get_mut, remove_if, retain).
 //!
 //! Contract taken from the real library: a linearizable concurrent map; `get / get_mut / insert /
 //! remove / contains_key / clear` are atomic on the entry; `Ref / RefMut / RefMulti` keep the
 //! shard lock while alive; `iter()` yields every entry once.
 //! Model: ONE shard (all keys share one lock = maximal lock sharing), `CAP` slots, look-up by `Eq`
-//! only (the hasher is never run), iteration in slot order.  No drop glue: contents live in
-//! `MaybeUninit` and are leaked.  Exceeding `CAP` cuts the path (outside the stated bound).
+//! only (the hasher is never run), iteration in slot order.  No drop glue (contents are leaked).
+//! Exceeding `CAP` cuts the path (outside the stated bound).
+//!
+//! Layout: the state lives OUT OF LINE in small, padding-free heap cells and uninitialised payload
+//! arrays; the map itself is five pointers wide.  Reason (measured): Kani moves objects larger than a
+//! couple of machine words with memcpy; when such an object contains padding bytes CBMC loses
+//! field-level constant propagation for the whole object, and every later map operation is explored
+//! for all slots symbolically (minutes instead of seconds).
 #![allow(clippy::all)]
 use core::borrow::Borrow;
-use core::cell::UnsafeCell;
 use core::hash::Hash;
 use core::marker::PhantomData;
 use core::mem::MaybeUninit;
@@ -20,16 +26,12 @@ pub const CAP: usize = 4;
 #[derive(Clone, Default)]
 pub struct RandomState;
 
-struct Inner<K, V> {
-    used: [bool; CAP],
-    keys: [MaybeUninit<K>; CAP],
-    vals: [MaybeUninit<V>; CAP],
-    lock: vs::LockState,
-    lookups: u32,
-}
-
 pub struct DashMap<K, V, S = RandomState> {
-    inner: UnsafeCell<Inner<K, V>>,
+    used: *mut [u64; CAP],                 // 0 / 1 per slot
+    keys: *mut [MaybeUninit<K>; CAP],
+    vals: *mut [MaybeUninit<V>; CAP],
+    lockp: *mut vs::LockState,
+    lookupsp: *mut u64,
     _s: PhantomData<S>,
 }
 unsafe impl<K: Send, V: Send, S> Send for DashMap<K, V, S> {}
@@ -47,137 +49,162 @@ impl<K: Eq + Hash, V> DashMap<K, V, RandomState> {
     }
 }
 
+impl<K, V, S> DashMap<K, V, S> {
+    #[inline(always)] #[allow(clippy::mut_from_ref)]
+    fn used(&self) -> &mut [u64; CAP] { unsafe { &mut *self.used } }
+    #[inline(always)] #[allow(clippy::mut_from_ref)]
+    fn keys(&self) -> &mut [MaybeUninit<K>; CAP] { unsafe { &mut *self.keys } }
+    #[inline(always)] #[allow(clippy::mut_from_ref)]
+    fn vals(&self) -> &mut [MaybeUninit<V>; CAP] { unsafe { &mut *self.vals } }
+    #[inline(always)] #[allow(clippy::mut_from_ref)]
+    fn lk(&self) -> &mut vs::LockState { unsafe { &mut *self.lockp } }
+}
+
 impl<K: Eq + Hash, V, S> DashMap<K, V, S> {
     fn raw() -> Self {
         DashMap {
-            inner: UnsafeCell::new(Inner {
-                used: [false; CAP],
-                keys: unsafe { MaybeUninit::uninit().assume_init() },
-                vals: unsafe { MaybeUninit::uninit().assume_init() },
-                lock: vs::LockState::new(),
-                lookups: 0,
-            }),
+            used: Box::into_raw(Box::new([0u64; CAP])),
+            keys: Box::into_raw(Box::<[MaybeUninit<K>; CAP]>::new_uninit()) as *mut [MaybeUninit<K>; CAP],
+            vals: Box::into_raw(Box::<[MaybeUninit<V>; CAP]>::new_uninit()) as *mut [MaybeUninit<V>; CAP],
+            lockp: vs::new_lock_word(),
+            lookupsp: Box::into_raw(Box::new(0u64)),
             _s: PhantomData,
         }
     }
-    #[inline(always)]
-    #[allow(clippy::mut_from_ref)]
-    fn st(&self) -> &mut Inner<K, V> { unsafe { &mut *self.inner.get() } }
 
     /// fixed-length scan, no early exit (keeps the symbolic execution branch-free)
     #[inline(always)]
     fn find<Q>(&self, key: &Q) -> usize where K: Borrow<Q>, Q: Eq + ?Sized {
-        let st = self.st();
-        st.lookups += 1;
+        unsafe { *self.lookupsp += 1; }
+        let (used, keys) = (self.used(), self.keys());
         let mut idx = CAP;
         let mut i = 0;
         while i < CAP {
-            if idx == CAP && st.used[i] && unsafe { st.keys[i].assume_init_ref() }.borrow() == key { idx = i; }
+            if idx == CAP && used[i] != 0 && unsafe { keys[i].assume_init_ref() }.borrow() == key { idx = i; }
             i += 1;
         }
         idx
     }
     #[inline(always)]
     fn free_slot(&self) -> usize {
-        let st = self.st();
+        let used = self.used();
         let mut idx = CAP;
         let mut i = 0;
-        while i < CAP { if idx == CAP && !st.used[i] { idx = i; } i += 1; }
+        while i < CAP { if idx == CAP && used[i] == 0 { idx = i; } i += 1; }
         idx
     }
 
     // ---- verification-only accessors (used by harness support code)
-    pub fn vk_set_class(&self, class: u8) { self.st().lock.class = class; }
-    pub fn vk_lookups(&self) -> u32 { self.st().lookups }
-    pub fn vk_len(&self) -> usize { let st = self.st(); let mut n = 0; let mut i = 0; while i < CAP { if st.used[i] { n += 1; } i += 1; } n }
+    pub fn vk_set_class(&self, class: u8) { self.lk().class = class; }
+    pub fn vk_lookups(&self) -> u32 { unsafe { *self.lookupsp as u32 } }
+    pub fn vk_len(&self) -> usize { let used = self.used(); let mut n = 0; let mut i = 0; while i < CAP { if used[i] != 0 { n += 1; } i += 1; } n }
     pub fn vk_slot(&self, i: usize) -> Option<(&K, &V)> {
-        let st = self.st();
-        if i < CAP && st.used[i] { Some(unsafe { (st.keys[i].assume_init_ref(), st.vals[i].assume_init_ref()) }) } else { None }
+        if i < CAP && self.used()[i] != 0 { Some(unsafe { (self.keys()[i].assume_init_ref(), self.vals()[i].assume_init_ref()) }) } else { None }
     }
     /// place an entry in a given slot without taking locks or schedule points (state construction)
     pub fn vk_place(&self, i: usize, k: K, v: V) {
-        let st = self.st();
-        st.used[i] = true;
-        st.keys[i] = MaybeUninit::new(k);
-        st.vals[i] = MaybeUninit::new(v);
+        self.used()[i] = 1;
+        self.keys()[i] = MaybeUninit::new(k);
+        self.vals()[i] = MaybeUninit::new(v);
     }
     pub fn vk_peek<Q>(&self, key: &Q) -> Option<&V> where K: Borrow<Q>, Q: Eq + ?Sized {
-        let st = self.st();
+        let (used, keys, vals) = (self.used(), self.keys(), self.vals());
         let mut r = None;
         let mut i = 0;
         while i < CAP {
-            if r.is_none() && st.used[i] && unsafe { st.keys[i].assume_init_ref() }.borrow() == key { r = Some(unsafe { st.vals[i].assume_init_ref() }); }
+            if r.is_none() && used[i] != 0 && unsafe { keys[i].assume_init_ref() }.borrow() == key { r = Some(unsafe { vals[i].assume_init_ref() }); }
             i += 1;
         }
         r
     }
-    pub fn vk_locked(&self) -> bool { let l = &self.st().lock; l.writer != 0 || l.readers.iter().any(|r| *r > 0) }
+    pub fn vk_locked(&self) -> bool { let l = self.lk(); l.writer != 0 || l.readers.iter().any(|r| *r > 0) }
 
     // ---- the modelled API
     pub fn insert(&self, key: K, value: V) -> Option<V> {
         vs::schedule_point(vs::S_MAP_OP);
-        vs::acquire_exclusive(&mut self.st().lock);
+        vs::acquire_exclusive(self.lk());
         let idx = self.find(&key);
-        let st = self.st();
         let old = if idx < CAP {
-            let old = unsafe { st.vals[idx].assume_init_read() };
-            st.vals[idx] = MaybeUninit::new(value);
+            let old = unsafe { self.vals()[idx].assume_init_read() };
+            self.vals()[idx] = MaybeUninit::new(value);
             core::mem::forget(key);
             Some(old)
         } else {
             let f = self.free_slot();
             if f >= CAP { vs::out_of_bound(); }
             let f = if f >= CAP { 0 } else { f };
-            st.used[f] = true;
-            st.keys[f] = MaybeUninit::new(key);
-            st.vals[f] = MaybeUninit::new(value);
+            self.used()[f] = 1;
+            self.keys()[f] = MaybeUninit::new(key);
+            self.vals()[f] = MaybeUninit::new(value);
             None
         };
-        vs::release_exclusive(&mut self.st().lock);
+        vs::release_exclusive(self.lk());
         old
     }
 
     pub fn remove<Q>(&self, key: &Q) -> Option<(K, V)> where K: Borrow<Q>, Q: Hash + Eq + ?Sized {
         vs::schedule_point(vs::S_MAP_OP);
-        vs::acquire_exclusive(&mut self.st().lock);
+        vs::acquire_exclusive(self.lk());
         let idx = self.find(key);
-        let st = self.st();
         let r = if idx < CAP {
-            st.used[idx] = false;
-            Some(unsafe { (st.keys[idx].assume_init_read(), st.vals[idx].assume_init_read()) })
+            self.used()[idx] = 0;
+            Some(unsafe { (self.keys()[idx].assume_init_read(), self.vals()[idx].assume_init_read()) })
         } else { None };
-        vs::release_exclusive(&mut self.st().lock);
+        vs::release_exclusive(self.lk());
         r
+    }
+
+    pub fn remove_if<Q>(&self, key: &Q, f: impl FnOnce(&K, &V) -> bool) -> Option<(K, V)> where K: Borrow<Q>, Q: Hash + Eq + ?Sized {
+        vs::schedule_point(vs::S_MAP_OP);
+        vs::acquire_exclusive(self.lk());
+        let idx = self.find(key);
+        let r = if idx < CAP && f(unsafe { self.keys()[idx].assume_init_ref() }, unsafe { self.vals()[idx].assume_init_ref() }) {
+            self.used()[idx] = 0;
+            Some(unsafe { (self.keys()[idx].assume_init_read(), self.vals()[idx].assume_init_read()) })
+        } else { None };
+        vs::release_exclusive(self.lk());
+        r
+    }
+
+    pub fn retain(&self, mut f: impl FnMut(&K, &mut V) -> bool) {
+        vs::schedule_point(vs::S_MAP_OP);
+        vs::acquire_exclusive(self.lk());
+        let mut i = 0;
+        while i < CAP {
+            if self.used()[i] != 0 && !f(unsafe { self.keys()[i].assume_init_ref() }, unsafe { self.vals()[i].assume_init_mut() }) { self.used()[i] = 0; }
+            i += 1;
+        }
+        vs::release_exclusive(self.lk());
     }
 
     pub fn contains_key<Q>(&self, key: &Q) -> bool where K: Borrow<Q>, Q: Hash + Eq + ?Sized {
         vs::schedule_point(vs::S_MAP_OP);
-        vs::acquire_shared(&mut self.st().lock, false);
+        vs::acquire_shared(self.lk(), false);
         let r = self.find(key) < CAP;
-        vs::release_shared(&mut self.st().lock);
+        vs::release_shared(self.lk());
         r
     }
 
     pub fn get<Q>(&self, key: &Q) -> Option<mapref::one::Ref<'_, K, V, S>> where K: Borrow<Q>, Q: Hash + Eq + ?Sized {
         vs::schedule_point(vs::S_MAP_OP);
-        vs::acquire_shared(&mut self.st().lock, false);
+        vs::acquire_shared(self.lk(), false);
         let idx = self.find(key);
         if idx < CAP {
             Some(mapref::one::Ref { map: self, idx })
         } else {
-            vs::release_shared(&mut self.st().lock);
+            vs::release_shared(self.lk());
             None
         }
     }
 
     pub fn get_mut<Q>(&self, key: &Q) -> Option<mapref::one::RefMut<'_, K, V, S>> where K: Borrow<Q>, Q: Hash + Eq + ?Sized {
         vs::schedule_point(vs::S_MAP_OP);
-        vs::acquire_exclusive(&mut self.st().lock);
+        vs::acquire_exclusive(self.lk());
         let idx = self.find(key);
         if idx < CAP {
             Some(mapref::one::RefMut { map: self, idx })
         } else {
-            vs::release_exclusive(&mut self.st().lock);
+            vs::release_exclusive(self.lk());
             None
         }
     }
@@ -185,51 +212,28 @@ impl<K: Eq + Hash, V, S> DashMap<K, V, S> {
     /// non-blocking variants: `Locked` when another logical thread holds a conflicting guard
     pub fn try_get<Q>(&self, key: &Q) -> try_result::TryResult<mapref::one::Ref<'_, K, V, S>> where K: Borrow<Q>, Q: Hash + Eq + ?Sized {
         vs::schedule_point(vs::S_MAP_OP);
-        if self.st().lock.writer != 0 { return try_result::TryResult::Locked; }
-        vs::acquire_shared(&mut self.st().lock, true);
+        if self.lk().writer != 0 { return try_result::TryResult::Locked; }
+        vs::acquire_shared(self.lk(), true);
         let idx = self.find(key);
         if idx < CAP { try_result::TryResult::Present(mapref::one::Ref { map: self, idx }) }
-        else { vs::release_shared(&mut self.st().lock); try_result::TryResult::Absent }
+        else { vs::release_shared(self.lk()); try_result::TryResult::Absent }
     }
     pub fn try_get_mut<Q>(&self, key: &Q) -> try_result::TryResult<mapref::one::RefMut<'_, K, V, S>> where K: Borrow<Q>, Q: Hash + Eq + ?Sized {
         vs::schedule_point(vs::S_MAP_OP);
         if self.vk_locked() { return try_result::TryResult::Locked; }
-        vs::acquire_exclusive(&mut self.st().lock);
+        vs::acquire_exclusive(self.lk());
         let idx = self.find(key);
         if idx < CAP { try_result::TryResult::Present(mapref::one::RefMut { map: self, idx }) }
-        else { vs::release_exclusive(&mut self.st().lock); try_result::TryResult::Absent }
-    }
-    pub fn remove_if<Q>(&self, key: &Q, f: impl FnOnce(&K, &V) -> bool) -> Option<(K, V)> where K: Borrow<Q>, Q: Hash + Eq + ?Sized {
-        vs::schedule_point(vs::S_MAP_OP);
-        vs::acquire_exclusive(&mut self.st().lock);
-        let idx = self.find(key);
-        let st = self.st();
-        let r = if idx < CAP && f(unsafe { st.keys[idx].assume_init_ref() }, unsafe { st.vals[idx].assume_init_ref() }) {
-            st.used[idx] = false;
-            Some(unsafe { (st.keys[idx].assume_init_read(), st.vals[idx].assume_init_read()) })
-        } else { None };
-        vs::release_exclusive(&mut self.st().lock);
-        r
-    }
-    pub fn retain(&self, mut f: impl FnMut(&K, &mut V) -> bool) {
-        vs::schedule_point(vs::S_MAP_OP);
-        vs::acquire_exclusive(&mut self.st().lock);
-        let st = self.st();
-        let mut i = 0;
-        while i < CAP {
-            if st.used[i] && !f(unsafe { st.keys[i].assume_init_ref() }, unsafe { st.vals[i].assume_init_mut() }) { st.used[i] = false; }
-            i += 1;
-        }
-        vs::release_exclusive(&mut self.st().lock);
+        else { vs::release_exclusive(self.lk()); try_result::TryResult::Absent }
     }
 
     pub fn clear(&self) {
         vs::schedule_point(vs::S_MAP_OP);
-        vs::acquire_exclusive(&mut self.st().lock);
-        let st = self.st();
+        vs::acquire_exclusive(self.lk());
+        let used = self.used();
         let mut i = 0;
-        while i < CAP { st.used[i] = false; i += 1; }
-        vs::release_exclusive(&mut self.st().lock);
+        while i < CAP { used[i] = 0; i += 1; }
+        vs::release_exclusive(self.lk());
     }
 
     pub fn len(&self) -> usize { self.vk_len() }
@@ -237,7 +241,7 @@ impl<K: Eq + Hash, V, S> DashMap<K, V, S> {
 
     pub fn iter(&self) -> iter::Iter<'_, K, V, S> {
         vs::schedule_point(vs::S_MAP_OP);
-        vs::acquire_shared(&mut self.st().lock, false);
+        vs::acquire_shared(self.lk(), false);
         iter::Iter { map: self, next: 0 }
     }
 }
@@ -258,25 +262,25 @@ pub mod mapref {
         use super::super::*;
         pub struct Ref<'a, K, V, S = RandomState> { pub(crate) map: &'a DashMap<K, V, S>, pub(crate) idx: usize }
         impl<'a, K: Eq + Hash, V, S> Ref<'a, K, V, S> {
-            pub fn key(&self) -> &K { unsafe { (*self.map.inner.get()).keys[self.idx].assume_init_ref() } }
-            pub fn value(&self) -> &V { unsafe { (*self.map.inner.get()).vals[self.idx].assume_init_ref() } }
+            pub fn key(&self) -> &K { unsafe { (*self.map.keys)[self.idx].assume_init_ref() } }
+            pub fn value(&self) -> &V { unsafe { (*self.map.vals)[self.idx].assume_init_ref() } }
             pub fn pair(&self) -> (&K, &V) { (self.key(), self.value()) }
         }
         impl<'a, K: Eq + Hash, V, S> Deref for Ref<'a, K, V, S> { type Target = V; fn deref(&self) -> &V { self.value() } }
         impl<'a, K, V, S> Drop for Ref<'a, K, V, S> {
-            fn drop(&mut self) { vs::release_shared(unsafe { &mut (*self.map.inner.get()).lock }); }
+            fn drop(&mut self) { vs::release_shared(unsafe { &mut *self.map.lockp }); }
         }
         pub struct RefMut<'a, K, V, S = RandomState> { pub(crate) map: &'a DashMap<K, V, S>, pub(crate) idx: usize }
         impl<'a, K: Eq + Hash, V, S> RefMut<'a, K, V, S> {
-            pub fn key(&self) -> &K { unsafe { (*self.map.inner.get()).keys[self.idx].assume_init_ref() } }
-            pub fn value(&self) -> &V { unsafe { (*self.map.inner.get()).vals[self.idx].assume_init_ref() } }
-            pub fn value_mut(&mut self) -> &mut V { unsafe { (*self.map.inner.get()).vals[self.idx].assume_init_mut() } }
+            pub fn key(&self) -> &K { unsafe { (*self.map.keys)[self.idx].assume_init_ref() } }
+            pub fn value(&self) -> &V { unsafe { (*self.map.vals)[self.idx].assume_init_ref() } }
+            pub fn value_mut(&mut self) -> &mut V { unsafe { (*self.map.vals)[self.idx].assume_init_mut() } }
             pub fn pair(&self) -> (&K, &V) { (self.key(), self.value()) }
         }
         impl<'a, K: Eq + Hash, V, S> Deref for RefMut<'a, K, V, S> { type Target = V; fn deref(&self) -> &V { self.value() } }
         impl<'a, K: Eq + Hash, V, S> DerefMut for RefMut<'a, K, V, S> { fn deref_mut(&mut self) -> &mut V { self.value_mut() } }
         impl<'a, K, V, S> Drop for RefMut<'a, K, V, S> {
-            fn drop(&mut self) { vs::release_exclusive(unsafe { &mut (*self.map.inner.get()).lock }); }
+            fn drop(&mut self) { vs::release_exclusive(unsafe { &mut *self.map.lockp }); }
         }
     }
     pub mod multiple {
@@ -284,13 +288,13 @@ pub mod mapref {
         /// shares the iterator's shard guard (the real one clones an `Arc` of it)
         pub struct RefMulti<'a, K, V, S = RandomState> { pub(crate) map: &'a DashMap<K, V, S>, pub(crate) idx: usize }
         impl<'a, K: Eq + Hash, V, S> RefMulti<'a, K, V, S> {
-            pub fn key(&self) -> &K { unsafe { (*self.map.inner.get()).keys[self.idx].assume_init_ref() } }
-            pub fn value(&self) -> &V { unsafe { (*self.map.inner.get()).vals[self.idx].assume_init_ref() } }
+            pub fn key(&self) -> &K { unsafe { (*self.map.keys)[self.idx].assume_init_ref() } }
+            pub fn value(&self) -> &V { unsafe { (*self.map.vals)[self.idx].assume_init_ref() } }
             pub fn pair(&self) -> (&K, &V) { (self.key(), self.value()) }
         }
         impl<'a, K: Eq + Hash, V, S> Deref for RefMulti<'a, K, V, S> { type Target = V; fn deref(&self) -> &V { self.value() } }
         impl<'a, K, V, S> Drop for RefMulti<'a, K, V, S> {
-            fn drop(&mut self) { vs::release_shared(unsafe { &mut (*self.map.inner.get()).lock }); }
+            fn drop(&mut self) { vs::release_shared(unsafe { &mut *self.map.lockp }); }
         }
     }
 }
@@ -301,15 +305,15 @@ pub mod iter {
     impl<'a, K: Eq + Hash, V, S> Iterator for Iter<'a, K, V, S> {
         type Item = mapref::multiple::RefMulti<'a, K, V, S>;
         fn next(&mut self) -> Option<Self::Item> {
-            let st = unsafe { &mut *self.map.inner.get() };
+            let used = unsafe { &*self.map.used };
             // first used slot at or after `next`, fixed-length scan
             let mut found = CAP;
             let mut i = 0;
-            while i < CAP { if found == CAP && i >= self.next && st.used[i] { found = i; } i += 1; }
+            while i < CAP { if found == CAP && i >= self.next && used[i] != 0 { found = i; } i += 1; }
             if found < CAP {
                 self.next = found + 1;
                 // the RefMulti shares the shard guard: one more shared hold by this thread
-                vs::acquire_shared(&mut st.lock, true);
+                vs::acquire_shared(unsafe { &mut *self.map.lockp }, true);
                 Some(mapref::multiple::RefMulti { map: self.map, idx: found })
             } else {
                 self.next = CAP;
@@ -318,6 +322,6 @@ pub mod iter {
         }
     }
     impl<'a, K, V, S> Drop for Iter<'a, K, V, S> {
-        fn drop(&mut self) { vs::release_shared(unsafe { &mut (*self.map.inner.get()).lock }); }
+        fn drop(&mut self) { vs::release_shared(unsafe { &mut *self.map.lockp }); }
     }
 }
